@@ -47,7 +47,7 @@ theorem ax0_mp (hx : 3 ≤ Lx) (hy : 4 ≤ Ly) (hz : 5 ≤ Lz) (x y z : Int)
   rw [sgnX_0, sgnY_0, sgnZ_01 (Or.inl rfl)] at hp
   obtain ⟨p1, p2, p3, p4, p5, p6⟩ := hp
   unfold SelC at hc
-  rcases hc with hc | hc | ⟨hc, _⟩ | ⟨_, hc | ⟨h2, hz2⟩ | ⟨h0, hzt, hn⟩ | hq⟩
+  rcases hc with hc | hc | ⟨hc, _⟩ | ⟨_, hc | ⟨h2, hz2⟩ | ⟨h0, hzt, hn⟩ | hq | hqy | hqx⟩
   · omega
   · omega
   · omega
@@ -71,6 +71,8 @@ theorem ax0_mp (hx : 3 ≤ Lx) (hy : 4 ≤ Ly) (hz : 5 ≤ Lz) (x y z : Int)
       rw [e]
       exact ⟨q1, q2, q3, p4, p5, p6⟩
   · right; right; right; right; unfold QC at hq; unfold qn; rw [if_pos hq.2.2.2.2.2]; omega
+  · exfalso; unfold QY at hqy; omega
+  · exfalso; unfold QX at hqx; omega
 
 theorem ax0_abs (hx : 3 ≤ Lx) (hy : 4 ≤ Ly) (hz : 5 ≤ Lz) (x y z : Int)
     (h : P0 Lx Ly Lz x y z) : B0 Lx Ly Lz x y z := by
@@ -163,7 +165,7 @@ theorem ax0_mpr (hx : 3 ≤ Lx) (hy : 4 ≤ Ly) (hz : 5 ≤ Lz) (x y z : Int)
       · intro hh; unfold Hole at hh; omega
       · intro hh; unfold Hole at hh; omega
     · unfold SelC QC; right; right; right
-      exact ⟨rfl, Or.inr (Or.inr (Or.inr ⟨rfl, rfl, by omega, by omega, by omega, hg⟩))⟩
+      exact ⟨rfl, Or.inr (Or.inr (Or.inr (Or.inl ⟨rfl, rfl, by omega, by omega, by omega, hg⟩)))⟩
 
 theorem ax0 (hx : 3 ≤ Lx) (hy : 4 ≤ Ly) (hz : 5 ≤ Lz) (x y z : Int) :
     (TS Lx Ly Lz 0 x y z ∨ P0 Lx Ly Lz x y z) ↔ B0 Lx Ly Lz x y z :=
